@@ -401,6 +401,7 @@ def rule_worker_loops(ctx):
     c04.rule_task_handover(ctx)
     c04.rule_search_handover(ctx)
     c04.rule_pool_bits(ctx)
+    c04.rule_executor_identity(ctx)
 
 
 RULES.append(("C06.i", "run loops stop only when the worker's queues are empty (a worker that parks while holding runnable tasks makes the pool look idle: spurious Deadlock)", rule_worker_loops))
